@@ -7,7 +7,11 @@ SEED=$1; PKG=$2; shift 2; EXTRA="$*"
 export GOFLAGS=-mod=mod GOPROXY=off GOSUMDB=off GOTOOLCHAIN=local; unset GOWORK
 WT=$(mktemp -d /tmp/confirm-XXXX); rmdir $WT
 git -C /repo worktree add -q --detach $WT HEAD || exit 9
-cleanup() { git -C /repo worktree remove --force $WT 2>/dev/null; rm -rf $WT; }
+# throw-away build cache (test binaries of scratch worktrees are never trimmed otherwise)
+REALCACHE=$(go env GOCACHE); SCRATCHCACHE=$(mktemp -d /tmp/confirm-gocache-XXXX)
+if [ -d "$REALCACHE" ] && [ "$(du -sm "$REALCACHE" | cut -f1)" -lt 1024 ]; then rsync -a "$REALCACHE/" "$SCRATCHCACHE/"; fi
+export GOCACHE=$SCRATCHCACHE
+cleanup() { git -C /repo worktree remove --force $WT 2>/dev/null; rm -rf $WT $SCRATCHCACHE; }
 trap cleanup EXIT
 cp $SEED/demo_test.go $WT/$PKG/zz_seed_demo_test.go
 cd $WT
